@@ -17,25 +17,24 @@ READS_CONTENT = {'index', 'first', 'get', 'iter', 'min', 'into_iter', 'last', 'g
 
 
 def registry_scope(ctx):
-    """(function, index of its writable flag parameter): the function on the transaction-begin path that takes the reader-registry
-    lock -- the begin role itself, or a helper reachable only through it"""
+    """(function, index of its writable flag parameter): the begin role with its private helpers folded in (the function that takes the reader-registry lock
+    may be such a helper)"""
     if hasattr(ctx, '_reg_scope'):
         return ctx._reg_scope
-    F = ctx.facts
-    L = c09.locks_of(ctx)
     bf = c09.begin_fn(ctx)
-    best = None
-    if bf is not None:
-        cands = [bf] + sorted((g for g in F.reachable_fns([bf]) if g is not bf and g.kind != 'Closure'), key=lambda f: f.path)
-        for g in cands:
-            if any(name == REGISTRY_LOCK for (bb, name, mode, tok, tr) in L.info(g).sites):
-                if g is bf or _only_via(F, g, bf):
-                    best = g
-                    break
-    if best is None:
-        best = bf
-    ctx._reg_scope = (best, c09.writable_param(best) if best is not None else None)
+    ctx._reg_scope = (bf, c09.writable_param(bf) if bf is not None else None)
     return ctx._reg_scope
+
+
+def ok_return_blocks(fn, blocks=None):
+    """blocks that put a success value into the return slot (directly, or as the result of a folded-in helper)"""
+    out = []
+    for bb in (blocks if blocks is not None else fn.reachable_blocks()):
+        for s in fn.blocks[bb]['stmts']:
+            if s['k'] == 'assign' and s['p']['l'] == 0 and not s['p']['pr'] and \
+                    ((s['rv']['k'] == 'agg' and s['rv'].get('variant') == 'Ok') or tuple(s.get('ret_kind') or ()) == ('v', 'Ok')):
+                out.append(bb)
+    return out
 
 
 def registry_holders(ctx, fn, prune=None):
@@ -180,13 +179,13 @@ def release_sites(ctx, rule='C03.release-site'):
     F = ctx.facts
     bf = c09.begin_fn(ctx)
     L = c09.locks_of(ctx)
-    sites = [(fn, bb, t) for fn in F.fns for bb, t, c in calls_to_fn(F, fn, rel)]
+    sites = [(fn, bb, t) for fn in [bf] + [g for g in F.fns if not c09.part_of(ctx, g, bf)] for bb, t, c in calls_to_fn(F, fn, rel)]
     f = floor(rule, 'calls of the release role', len(sites), 1)
     if f:
         res.append(f)
     for fn, bb, t in sites:
         owner = fn.owner if fn.kind == 'Closure' and fn.owner is not None else fn
-        if owner is not bf and not _only_via(F, owner, bf):
+        if owner is not bf and not _only_via(F, owner, getattr(bf, 'raw', bf)):
             res.append(bad(rule, '%s | releases pending pages outside transaction begin' % fn.qual,
                            '%s calls the release role at %s. Pending pages may only be released when a writer begins: the decision must be taken atomically with the reader registry, and the pages '
                            'freed by a commit must stay pending until the next writer begins so that the previous header\'s tree stays intact (fallback) and no reader that starts during the commit '
@@ -214,6 +213,35 @@ def release_sites(ctx, rule='C03.release-site'):
             if n == 'index' and len(ct['args']) > 1:
                 from facts import op_const_val
                 idx_consts.add(op_const_val(ct['args'][1]))
+        # `regs[0]` on a plain slice is a MIR index projection, not a call: follow the bound back through copies to such a load
+        bl = op_local(t['args'][1])
+        for _ in range(8):
+            if bl is None:
+                break
+            ds = du.defs.get(bl, [])
+            if len(ds) != 1 or ds[0][1] is None:
+                break
+            s0 = fn.blocks[ds[0][0]]['stmts'][ds[0][1]]
+            p0 = op_place(s0['rv']['op']) if s0['rv']['k'] == 'use' else None
+            if p0 is None or s0['p']['pr']:
+                break
+            ix = [e for e in p0['pr'] if e['k'] == 'index']
+            if ix:
+                if du.slice_local(p0['l'])[0] & hs:
+                    ids = du.defs.get(ix[0]['l'], [])
+                    val = None
+                    if len(ids) == 1 and ids[0][1] is not None:
+                        si0 = fn.blocks[ids[0][0]]['stmts'][ids[0][1]]
+                        if si0['rv']['k'] == 'use':
+                            from facts import op_const_val
+                            val = op_const_val(si0['rv']['op'])
+                    idx_consts.add(val)
+                    names.add('index')
+                break
+            if p0['pr']:
+                break
+            bl = p0['l']
+        names -= {'push', 'sort', 'sort_unstable', 'insert', 'remove', 'binary_search'} if (names & OLDEST or idx_consts) else set()
         oldest = bool(names & OLDEST) or (idx_consts == {0})
         wrong = bool(names & NOT_OLDEST) or bool(idx_consts - {0})
         if oldest and not wrong:
@@ -240,8 +268,7 @@ def register(ctx, rule='C03.register'):
         return [bad(rule, '%s | reader never registers' % bf.qual, 'the read-only begin path never inserts into the open-reader registry: nothing stops a writer from reusing '
                     'the pages of an open reader\'s snapshot', where='%s:%d' % (bf.file, bf.line))]
     # every Ok return of the reader path passes an insertion
-    ok_blocks = [bb for bb in li.reach for s in bf.blocks[bb]['stmts']
-                 if s['k'] == 'assign' and s['p']['l'] == 0 and s['rv']['k'] == 'agg' and s['rv'].get('variant') == 'Ok']
+    ok_blocks = ok_return_blocks(bf, li.reach)
     avoid = {bb for bb, t, n in ins_r}
     seen = set([0]) - avoid
     todo = list(seen)
@@ -271,47 +298,26 @@ def register(ctx, rule='C03.register'):
         loads = [a for a in atoms if a[0] in ('field',) and a[2] == 'tx_id']
         has_arith = any(a[0] == 'bin' and a[1].startswith(('Add', 'Sub', 'Mul')) for a in atoms)
         src = op_place(val)
-        # follow the copy back to the place it was read from
+        # the place the registered value was loaded from: <some Meta>.tx_id, followed back through copies, helper parameters and wrappers
         root = None
-        if src is not None and not src['pr']:
-            ds = du.defs.get(src['l'], [])
-            if len(ds) == 1 and ds[0][1] is not None:
-                s = bf.blocks[ds[0][0]]['stmts'][ds[0][1]]
-                if s['rv']['k'] == 'use' and op_place(s['rv']['op']) is not None:
-                    p = op_place(s['rv']['op'])
-                    fs = [e for e in p['pr'] if e['k'] == 'field']
-                    if fs and fs[-1]['name'] == 'tx_id':
-                        root = p['l']
-        elif src is not None:
-            fs = [e for e in src['pr'] if e['k'] == 'field']
-            if fs and fs[-1]['name'] == 'tx_id':
-                root = src['l']
+        if src is not None:
+            rl, rpath = du.trace_root(src['l'], tuple(str(e.get('name', e.get('i'))) for e in src['pr'] if e['k'] == 'field'), within=li.reach)
+            if rpath and rpath[-1] == 'tx_id':
+                root = (rl, rpath[:-1])
         # the Meta stored in the returned TxInner
         kept = set()
         for b2, si, s in aggregates_of(bf, 'TxInner'):
             for nme, o in zip(s['rv']['fields'], s['rv']['ops']):
-                if nme == 'meta' and op_local(o) is not None:
-                    kept.add(du.root_of(op_local(o)))
-        begin = c09.begin_fn(ctx)
-        if not kept and bf is not begin:
-            # a helper: the Meta it returns is the one the begin role stores in the transaction
-            locs0, _ = du.slice_local(0)
-            kept |= {du.root_of(l) for l in locs0 if bf.locals[l]['ty'] == 'meta::Meta'}
-            dub = ctx.du(begin)
-            stored = False
-            for b2, si, s in aggregates_of(begin, 'TxInner'):
-                for nme, o in zip(s['rv']['fields'], s['rv']['ops']):
-                    if nme == 'meta' and op_local(o) is not None and has_call(dub.slice_operand(o)[1], bf.path):
-                        stored = True
-            if not stored:
-                kept = set()
-        if root is None or not kept or du.root_of(root) not in kept:
+                if nme == 'meta' and op_place(o) is not None:
+                    po = op_place(o)
+                    kept.add(du.trace_root(po['l'], tuple(str(e.get('name', e.get('i'))) for e in po['pr'] if e['k'] == 'field'), within=li.reach))
+        if root is None or not kept or root not in kept:
             res.append(bad(rule, '%s | registered id is not the snapshot id' % bf.qual,
                            'the value inserted into the registry at %s is not a plain copy of the tx_id of the Meta the transaction keeps (source local %s, kept %s): '
                            'the reader would pin a different snapshot than the one it reads' % (bf.loc(bb), root, sorted(kept)), where=bf.loc(bb)))
         else:
             # no store into that Meta's tx_id on the reader path
-            bad_store = [(b3, s3) for b3, s3, st in stores_to_field(bf, 'Meta', 'tx_id') if b3 in li.reach and st['p']['l'] == du.root_of(root)]
+            bad_store = [(b3, s3) for b3, s3, st in stores_to_field(bf, 'Meta', 'tx_id') if b3 in li.reach and st['p']['l'] == root[0]]
             if bad_store:
                 res.append(bad(rule, '%s | snapshot id modified on the reader path' % bf.qual,
                                'Meta.tx_id is modified at %s on the read-only path' % bf.loc(*bad_store[0]), where=bf.loc(*bad_store[0])))
@@ -328,7 +334,8 @@ def sorted_registry(ctx, rule='C03.sorted-registry'):
     L = c09.locks_of(ctx)
     n = 0
     nmut = 0
-    for fn in F.fns:
+    seen_sites = set()
+    for fn in ctx.units():
         li = L.info(fn)
         hs = set()
         for (bb, name, mode, tok, tr) in li.sites:
@@ -341,7 +348,9 @@ def sorted_registry(ctx, rule='C03.sorted-registry'):
         for bb, t, name, mut in calls:
             if not mut:
                 continue
-            nmut += 1
+            if ctx.origin(fn, bb) not in seen_sites:
+                seen_sites.add(ctx.origin(fn, bb))
+                nmut += 1
             if name not in ALLOWED_MUTATORS:
                 res.append(bad(rule, '%s | registry mutated with %s' % (fn.qual, name),
                                '%s applies `%s` to the open-reader registry at %s; only order-preserving single-element operations (push+sort, insert, remove) are allowed: '
@@ -373,6 +382,7 @@ def deregister_only_own(ctx, rule='C03.deregister-only-own'):
         (dr,) = ctx.need('<TxInner as Drop>::drop')
     except AnchorError as e:
         return [unresolved(rule, str(e))]
+    dr = ctx.x(dr)
     li, hs, toks = registry_holders(ctx, dr)
     if not hs:
         return [bad(rule, '%s | reader never deregisters' % dr.qual, 'dropping a transaction never touches the open-reader registry: a closed reader pins its snapshot forever',
@@ -491,6 +501,8 @@ def run(ctx, tier):
     results += c10.blocking_registry(ctx, rule='C03.blocking-registry')
     results += c02.cow_free_set(ctx, rule='C03.cow.free-set')
     results += c02.pending_key(ctx, rule='C03.pending-key')
+    import c06
+    results += c06.shared_freelist(ctx, rule='C03.shared-freelist')
     return dict(
         results=results, stats=dict(ctx.stats),
         explanation=(
